@@ -401,11 +401,29 @@ def run(tape, prop, tier):
         def live():
             return [c for c in L["conns"] if c["closed_at"] is None and not c["ws"].closed and not c["conn"].stalled]
 
+        async def guarded_send(coro):
+            # the peer's own connection may be gone already (reset a moment ago): then the fault simply does not land
+            try:
+                await coro
+            except Exception:
+                res.stats["fault_on_dead_connection"] += 1
+
         def mark_bad(c):
             if c["t_bad"] is None:
                 c["t_bad"] = loop.time()
 
         async def director():
+            try:
+                await director_()
+            finally:
+                # whatever happened to the script (a send on a connection that was just reset raises), the run ends
+                if "t_final" not in L:
+                    await asyncio.sleep(max(0.0, t_end - loop.time()))
+                    L["final"] = [(c["id"], dict(c["subs"]), c["t_open"]) for c in live()]
+                    L["t_final"] = loop.time()
+                    d.stop()
+
+        async def director_():
             events_ = sorted([(t, "fault", k) for t, k in faults] + [(float(t), "reg", r) for t, r in later_ch],
                              key=lambda x: (x[0], x[1]))
             for t, what, arg in events_:
@@ -449,7 +467,7 @@ def run(tape, prop, tier):
                     continue
                 elif k in ("close_ok", "close_away", "close_err"):
                     mark_bad(c)
-                    await c["ws"].close(code={"close_ok": 1000, "close_away": 1001, "close_err": 1011}[k])
+                    await guarded_send(c["ws"].close(code={"close_ok": 1000, "close_away": 1001, "close_err": 1011}[k]))
                 elif k == "reset":
                     mark_bad(c)
                     c["conn"].reset()
@@ -460,29 +478,29 @@ def run(tape, prop, tier):
                 elif k == "garbage_text":
                     mark_bad(c)
                     res.probes["garbage_frame"] += 1
-                    await c["ws"].send_str("this is {not json")
+                    await guarded_send(c["ws"].send_str("this is {not json"))
                 elif k == "json_list":
                     mark_bad(c)
                     res.probes["garbage_frame"] += 1
-                    await c["ws"].send_str("[1, 2, 3]")
+                    await guarded_send(c["ws"].send_str("[1, 2, 3]"))
                 elif k == "binary":
-                    await c["ws"].send_bytes(b"\x00\x01binary")
+                    await guarded_send(c["ws"].send_bytes(b"\x00\x01binary"))
                 elif k == "unknown_channel":
                     mark_bad(c)
                     m = ({"stream": "nobody@trade", "data": {"e": "trade", "E": 1}} if flavour == "binance" else
                          {"event": "trade", "channel": "nobody", "data": {}} if flavour.startswith("bitstamp") else
                          {"ch": "nobody", "id": -1})
-                    await c["ws"].send_str(json.dumps(m))
+                    await guarded_send(c["ws"].send_str(json.dumps(m)))
                 elif k == "reconnect_request":
                     mark_bad(c)
-                    await c["ws"].send_str(json.dumps({"event": "bts:request_reconnect", "channel": "", "data": ""}))
+                    await guarded_send(c["ws"].send_str(json.dumps({"event": "bts:request_reconnect", "channel": "", "data": ""})))
                 elif k == "key_expired":
                     uds = [n for n in c["subs"] if chan_of_stream(n) and chan_of_stream(n).startswith("ud:")]
                     if uds:
                         n = uds[-1]
                         L.setdefault("expiries", []).append((loop.time(), c["id"], n, chan_of_stream(n)))
-                        await c["ws"].send_str(json.dumps({"stream": n, "data": {"e": "listenKeyExpired",
-                                                                                 "E": int(loop.wall() * 1000), "listenKey": n}}))
+                        await guarded_send(c["ws"].send_str(json.dumps({"stream": n, "data": {"e": "listenKeyExpired",
+                                                                                             "E": int(loop.wall() * 1000), "listenKey": n}})))
             await asyncio.sleep(max(0.0, t_end - loop.time()))
             # liveness snapshot BEFORE stopping
             L["final"] = [(c["id"], dict(c["subs"]), c["t_open"]) for c in live()]
